@@ -835,4 +835,25 @@ theorem lastNum_append_num (K : List Tok) (A l : List Char) :
     | text s => simpa [lastNum] using ih
     | num s => simp [lastNum, ih]
 
+
+theorem le_getLast_of_sorted_key {α} (f : α → Int) {l : List α} (h : l.Pairwise (fun x y => f x ≤ f y)) {m : α}
+    (hm : l.getLast? = some m) : ∀ x ∈ l, f x ≤ f m := by
+  induction l with
+  | nil => simp
+  | cons a r ih =>
+    have ha := List.pairwise_cons.mp h
+    cases r with
+    | nil =>
+      simp at hm
+      intro x hx; simp at hx; subst hx; subst hm; exact Int.le_refl _
+    | cons b r2 =>
+      have hm' : (b :: r2).getLast? = some m := by simpa [List.getLast?_cons_cons] using hm
+      intro x hx
+      rcases List.mem_cons.mp hx with e | e
+      · subst e
+        have h1 := ih ha.2 hm' b List.mem_cons_self
+        have h2 := ha.1 b List.mem_cons_self
+        omega
+      · exact ih ha.2 hm' x e
+
 end Flax.NatSort
